@@ -110,8 +110,10 @@ def run_case(case, strict=False):  # noqa: C901  pylint: disable=too-many-branch
             flt.gcode(c)
         flt.state.resetState()
         cl.add("after_a_previous_print")
-    flt.gcode("G28")
     unit = 1.0
+    if case.get("inch") and int(case["t"] * 1000) % 2:
+        flt.gcode("G20")          # (an inch file may well select its units before it homes)
+    flt.gcode("G28")
     if case.get("inch"):
         # the same numbers in inches: "one length unit" is then one inch (the statement speaks of length units)
         flt.gcode("G20")
@@ -302,9 +304,9 @@ def run_case(case, strict=False):  # noqa: C901  pylint: disable=too-many-branch
                     for c in ("G28", "G1 X150.05 Y180.99 Z0.2 F3000", "G91", "G1 X1"):
                         f2.gcode(c)
                     f2.state.resetState()
-                f2.gcode("G28")
                 if unit != 1.0:
                     f2.gcode("G20")
+                f2.gcode("G28")
                 f2.gcode("G1 X%r Y%r Z0.2 F3000" % (sx, sy))
                 if f2.state.excluding:
                     pass
